@@ -28,6 +28,7 @@ fn main() {
         out_dir: PathBuf::from(cargo_env("OUT_DIR")),
         rustc: cargo_env("RUSTC"),
     };
+    println!("cargo:rustc-check-cfg=cfg(substrate_fixed_verif)");
 }
 
 #[derive(PartialEq)]
